@@ -110,6 +110,38 @@ let handle kind fs obs =
     let c = (match rf, rv with Some (Ok a), Some (Ok b) -> common fb a vb b | _ -> 0) in
     (rf, rv, c) in
   let show_q (rf, rv, c) = Printf.sprintf "%s|%s|%d" (show_rr rf) (show_rr rv) c in
+  (* the decoded values of a directory parser on one representation (file = true: PeFile, else PeView) *)
+  let hex_region (b : Bytes.t) (r : region) : string =
+    let o = int_of_n r.r_off and l = int_of_n r.r_len in
+    if l = 0 then "-" else begin
+      let buf = Buffer.create (2 * l) in
+      for k = o to o + l - 1 do Buffer.add_string buf (Printf.sprintf "%02x" (Char.code (Bytes.get b k))) done;
+      Buffer.contents buf end in
+  let jl (l : n list) = join "." (List.map string_of_n l) in
+  let dq (file : bool) (bb : Bytes.t) (mm : mem) (k : string) : string =
+    let v = { v_file = file; v_addr = zero; v_len = mm.m_len; v_get = mm.m_get;
+              v_w = (if f.f_64 then n_of_z (Z.shift_left Z.one 64) else n_of_z (Z.shift_left Z.one 32));
+              v_base = h_base f mm; v_soh = h_soh f mm; v_soi = h_soi f mm; v_secs = sections f mm } in
+    let res_str sh = function Ok x -> "ok:" ^ sh x | Err e -> "e:" ^ show_err e | Fault _ -> "fault" in
+    (match k with
+     | "x" -> res_str (fun t -> Printf.sprintf "%s/%s/%s/%s" (jl t.t_funcs) (jl t.t_names) (jl t.t_idxs) (string_of_n t.t_base))
+                (view_by v (data_dir f mm zero))
+     | "i" ->
+       let p = { p_f = f; p_v = v } in
+       res_str (fun r ->
+           join ";" (List.map (fun d ->
+               let dll = (match dll_name p d with Ok r -> "n" ^ hex_region bb r | Err e -> "e" ^ show_err e | Fault _ -> "fault") in
+               let iat = (match desc_iat p d with Ok r -> "v" ^ jl (thunk_values p r) | Err e -> "e" ^ show_err e | Fault _ -> "fault") in
+               Printf.sprintf "%s.%s.%s.%s.%s/%s/%s" (string_of_n d.d_oft) (string_of_n d.d_tds) (string_of_n d.d_fwd) (string_of_n d.d_name) (string_of_n d.d_ft) dll iat)
+             (descs p r)))
+         (imports p)
+     | _ -> res_str (fun r -> hex_region bb r) (relocs_try_from v (data_dir f mm (n_of_int 5)))) in
+  let is_dq q = String.length q > 1 && (q.[0] = 'x' || q.[0] = 'i' || q.[0] = 'b') && q.[1] = ':' in
+  let show_dq fb mf vb mvo q =
+    let k = String.sub q 0 1 in
+    let sf = dq true fb mf k in
+    let sv = (match mvo with Some mv -> dq false vb mv k | None -> "-") in
+    Printf.sprintf "%s|%s|%d" sf sv (if sf = sv then 1 else 0) in
   tick "setup";
   (* ---- the model's observation ---- *)
   let mobs = (match validate f m with
@@ -125,7 +157,7 @@ let handle kind fs obs =
            | Ok _ -> (Some mv, (match pe_to_file f mv with Ok fl -> sparse (bytes_of_nlist fl) | _ -> "!fault"))
            | Err e -> (None, "!" ^ show_err e)
            | Fault _ -> (None, "!fault")) in
-         Printf.sprintf "v=%s f=%s r=%s" (sparse vb) fobs (join "," (List.map (fun q -> show_q (query img m vb mvo q)) qs))
+         Printf.sprintf "v=%s f=%s r=%s" (sparse vb) fobs (join "," (List.map (fun q -> if is_dq q then show_dq img m vb mvo q else show_q (query img m vb mvo q)) qs))
        | _ -> "!fault")) in
   tick "model";
   (* ---- the oracle on the implementation's observation ---- *)
@@ -173,6 +205,22 @@ let handle kind fs obs =
     List.iteri (fun i q ->
       let im = (try List.nth impl i with _ -> "?") in
       (match String.split_on_char '|' im with
+       | [a; b; _] when is_dq q ->
+         (* C06_exports_equal / C06_imports_equal (+ dll names, IAT values) / C06_relocs_equal on the implementation's
+            two answers: outside raw_tail_not_mapped, whatever the file view decodes the converted view decodes identically *)
+         let is_ok x = String.length x >= 3 && String.sub x 0 3 = "ok:" in
+         if wf && mvo <> None && is_ok a then begin
+           tag ("dir-" ^ String.sub q 0 1 ^ "-ok");
+           let same = (if q.[0] <> 'i' then a = b else is_ok b && begin
+               let ds x = split_on ';' (String.sub x 3 (String.length x - 3)) in
+               let da = ds a and db = ds b in
+               List.length da = List.length db &&
+               List.for_all2 (fun x y -> match String.split_on_char '/' x, String.split_on_char '/' y with
+                 | [f1; n1; i1], [f2; n2; i2] ->
+                   f1 = f2 && (n1.[0] <> 'n' || n1 = n2) && (i1.[0] <> 'v' || i1 = i2)
+                 | _ -> false) da db end) in
+           if not same then literal := false
+         end
        | [a; b; c] ->
          let rf = parse_rr a and rv = parse_rr b and c = n_of_string c in
          let p = Array.of_list (String.split_on_char ':' q) in
